@@ -181,11 +181,12 @@ def text_to_date(text):
     first = datetime.datetime(datetime.date.today().year, 1, 1)
     date = to_date(text, default=first)
     if date.date() == first.date():
+        second = first.replace(month=2, day=2)
         try:
-            other = to_date(text, default=first.replace(month=2, day=2))
+            other = to_date(text, default=second)
         except (ValueError, OverflowError):
             other = date
-        if other.date() != date.date():  # neither year, month nor day came from the text
+        if other.date() == second.date():  # neither year, month nor day came from the text
             date = datetime.datetime.combine(date_1900, date.timetz())
     return date
 
